@@ -40,3 +40,20 @@ Definition consts_tied : bool :=
   Nat.eqb (max_length Compressed) gen_max_compressed &&
   Nat.eqb min_len gen_min_len && Nat.eqb (mul Compressed) gen_compressed_mul &&
   Nat.eqb (mul Uncompressed) 1 && Nat.eqb gen_max_size_packet (max_length Compressed).
+
+(* ---- adaptors (UDP / WebSocket) for execution ---- *)
+Require Import Net.Adaptor.
+Definition scratch_of (o : option nat) : nat := match o with Some n => n | None => max_length Compressed end.
+(* UDP: datagrams cut to the scratch size; an empty datagram is end of stream; WebSocket: items as given *)
+Definition run_adaptor (udp : bool) (scratch : nat) (items : list item) (sizes : list nat) : list rev * list N * list item :=
+  let its := if udp then flat_map (fun i => match i with IBytes d => [IBytes (firstn scratch d)] | x => [x] end) items else items in
+  serve udp sizes [] its.
+Definition run_adaptor_session (m : mode) (verify : bool) (tab : list (bytes * tpacket))
+           (udp : bool) (scratch : nat) (items : list item) (sizes : list nat) : list (out tpacket) :=
+  let '(es, _, _) := run_adaptor udp scratch items sizes in
+  session tpacket (tparse tab) t_ver_of t_is_keepalive gen_version m verify (pong_frame m)
+          (length tab + length es + 8) [] es.
+(* the scratch arrays recognised in the source hold a maximum-size datagram *)
+Definition udp_scratch_ok : bool :=
+  match gen_udp_scratch_blocking with Some n => Nat.leb (max_length Compressed) n | None => true end &&
+  match gen_udp_scratch_tokio with Some n => Nat.leb (max_length Compressed) n | None => true end.
